@@ -303,6 +303,7 @@ func runC13(c *Ctx) {
 		R.Ob("(*Conn).handleBdat/receives the delivery result", c.P.Pos(f0.Pos()), nRecv >= 1, "no receive from Conn.dataResult")
 	}
 	ruleGoCapture(c)
+	ruleAcceptedRecorded(c)
 	ruleReplyFormat(c)        // "each naming its recipient": the recipient and the status text are printed as data, never as a printf format
 	ruleWriteDeadlineOwner(c) // every one of the n replies is written, however late its status arrives
 }
@@ -538,4 +539,22 @@ func ruleRecipientsInOrder(c *Ctx) {
 		R.Ob(c.siteKey(site, "list extended at its end only"), c.P.InstrPos(site), ok, "Conn.recipients is set to "+describe(v)+": entries are removed or rearranged, the per-recipient replies no longer follow RCPT order")
 	}
 	R.Ob("Conn.recipients/growth sites", "-", n >= 1, fmt.Sprintf("%d sites", n))
+}
+
+// ruleAcceptedRecorded (C13, C03): every recipient the backend accepted (Session.Rcpt returned nil) is recorded in
+// Conn.recipients before the handler returns — the status collector is built from that list, and a per-recipient
+// backend that reports a status for an address it was given but the server did not record panics in SetStatus
+// (421 for everybody). A refusal (recipient limit, …) therefore comes BEFORE the callback, never after its success.
+func ruleAcceptedRecorded(c *Ctx) {
+	R := c.R
+	R.Rule("R-accepted-recorded", "E2 must-pass-through under hypothesis", "after Session.Rcpt returned nil every path of handleRcpt records the recipient before it returns", 1)
+	n := 0
+	for _, site := range c.Sites(lRcpt) {
+		f := site.Parent()
+		for _, ea := range c.cbErrAtoms(lRcpt, "invoke:Session.Rcpt", f) {
+			site := site
+			n += c.obFollowH("accepted recipient is recorded", f, func(in ssa.Instruction) bool { return in == site }, []string{"st:Conn.recipients"}, ea+" == nil")
+		}
+	}
+	R.Ob("handleRcpt/Session.Rcpt call found", "-", n >= 1, "no Session.Rcpt call site found")
 }
